@@ -13,7 +13,8 @@ Nestings == {"top", "in-inproc-handler", "in-grpc-handler"}
 Cases == [kind : {"unary", "stream"}, interceptor : BOOLEAN, nesting : Nestings, deadline : BOOLEAN]
 
 \* what the handler (and a server interceptor in front of it) observes
-Facts == {"plain-string-key-hidden", "plain-struct-key-hidden", "outgoing-md-not-outgoing-in-handler",
+Facts == {"plain-string-key-hidden", "plain-struct-key-hidden", "pointer-keys-hidden", "scalar-and-array-keys-hidden",
+          "interface-and-channel-keys-hidden", "outgoing-md-not-outgoing-in-handler",
           "incoming-md-is-callers-outgoing", "incoming-md-not-enclosing", "peer-is-inproc",
           "method-is-this-call", "deadline-is-callers", "cancel-follows-caller",
           "clientctx-has-plain-keys", "clientctx-deadline", "handler-md-mutation-invisible-to-caller",
